@@ -660,8 +660,8 @@ Proof.
       + cbn [known_run] in HK. rewrite S in HK. apply orb_false_iff in HK. destruct HK as [K1 K2].
         split; [|right; exact K2].
         destruct (c =? 0) eqn:C0.
-        * cbn [andb] in K1. unfold known_step in K1. apply orb_false_iff in K1.
-          rewrite <- S1. apply inv_step_gen; auto. right. tauto.
+        * cbn [andb] in K1. unfold known_step in K1.
+          rewrite <- S1. apply inv_step_gen; auto. right. exact K1.
         * assert (s' = s).
           { rewrite <- S1. apply refused_unchanged. rewrite S2. apply N.eqb_neq. exact C0. }
           rewrite H. exact HI. }
